@@ -585,6 +585,15 @@ def prelude(rep, pid):
         sys.exit(2)
     res = coq_props(pid)
     rep.proof(res)
+    # DESIGN 3.5: no *Spec.v may (transitively) import a *Model.v
+    try:
+        dep = spec_independence()
+    except Exception as e:      # coqdep trouble is not a verdict
+        dep = []
+        log("spec_independence could not run:", e)
+    rep.cov["spec_independence_violations"] = dep
+    if dep:
+        rep.broken.append(("proof", "a specification file imports a model: " + "; ".join(dep[:5]), None))
     return lib
 
 
